@@ -55,55 +55,3 @@ Definition S_poww (w x e : N) : option N := bounded w (x ^ e).
 Definition S_wrap_add (w x y : N) : N := (x + y) mod 2 ^ w.
 Definition S_wrap_sub (w x y : N) : N := (2 ^ w + x - y) mod 2 ^ w.
 Definition S_wrap_mul (w x y : N) : N := (x * y) mod 2 ^ w.
-
-(* ---------------------------------------------------------------------------- S_coll: `list N` *)
-From SwayV Require Import C27.CollModel.
-
-(* reference state: the list, and the capacity as a ghost counter following the documented growth
-   rule (doubling, starting at 1, only when full) *)
-Definition lstate : Type := (list N * N)%type.
-Definition lnew : lstate := ([], 0).
-
-Definition lgrow (s : lstate) : lstate :=
-  let '(l, c) := s in
-  if N.of_nat (length l) =? c then (l, if c =? 0 then 1 else 2 * c) else s.
-
-Definition linsert (i : nat) (x : N) (l : list N) : list N := firstn i l ++ x :: skipn i l.
-Definition lremove (i : nat) (l : list N) : list N := firstn i l ++ skipn (S i) l.
-Definition lset (i : nat) (x : N) (l : list N) : list N := firstn i l ++ x :: skipn (S i) l.
-
-(* None = the operation is documented to revert (failed assert) *)
-Definition lstep (s : lstate) (o : vop) : option (lstate * list N) :=
-  let '(l, c) := s in
-  let n := N.of_nat (length l) in
-  match o with
-  | VPush x => let '(l1, c1) := lgrow s in Some ((l1 ++ [x], c1), [])
-  | VPop => match rev l with
-            | [] => Some (s, opt_obs None)
-            | x :: _ => Some ((removelast l, c), opt_obs (Some x))
-            end
-  | VGet i => Some (s, opt_obs (if i <? n then nth_error l (N.to_nat i) else None))
-  | VSet i x => if i <? n then Some ((lset (N.to_nat i) x l, c), []) else None
-  | VInsert i x => if i <=? n then let '(l1, c1) := lgrow s in Some ((linsert (N.to_nat i) x l1, c1), [])
-                   else None
-  | VRemove i => if i <? n then Some ((lremove (N.to_nat i) l, c), [nth (N.to_nat i) l 0]) else None
-  | VSwap i j => if (i <? n) && (j <? n)
-                 then Some ((lset (N.to_nat j) (nth (N.to_nat i) l 0)
-                               (lset (N.to_nat i) (nth (N.to_nat j) l 0) l), c), [])
-                 else None
-  | VClear => Some (([], c), [])
-  | VLen => Some (s, [n])
-  | VCap => Some (s, [c])
-  | VIsEmpty => Some (s, [N.b2n (n =? 0)])
-  | VLast => Some (s, opt_obs (match rev l with [] => None | x :: _ => Some x end))
-  end.
-
-Fixpoint lrun (ops : list vop) (s : lstate) : list (list N) * out (list N * N) :=
-  match ops with
-  | [] => ([], Ret s)
-  | o :: rest =>
-    match lstep s o with
-    | Some (s', ob) => let '(obs, fin) := lrun rest s' in (ob :: obs, fin)
-    | None => ([], Rev FAILED_ASSERT_SIGNAL)
-    end
-  end.
